@@ -396,7 +396,27 @@ def rule_nop_with_params(ctx):
     ctx.floor("C08.g nop paths with parameters", n, 2)
 
 
+def rule_value_survives_set(ctx):
+    """C08.i = C15.g: a bound value may travel through a session variable (`set v = %s` … `select $v`): the text SET stores is
+    rendered in the dialect it is parsed back in, so the value that comes out is the value that was bound (a default-dialect
+    rendering re-reads backslashes as escapes)."""
+    from .c15 import rule_set_unset
+
+    before, nf = len(ctx.obligations), len(ctx.findings)
+    rule_set_unset(ctx)
+    ctx.obligations[before:] = [o for o in ctx.obligations[before:] if o["rule"] == "C15.g"]
+    for o in ctx.obligations[before:]:
+        o["rule"] = "C08.i"
+    keep = []
+    for f in ctx.findings[nf:]:
+        if f.rule == "C15.g":
+            f.rule = "C08.i"
+            keep.append(f)
+    ctx.findings[nf:] = keep
+
+
 RULES = [
+    ("C08.i", rule_value_survives_set, ("quick", "thorough")),
     ("C08.g", rule_nop_with_params, ("quick", "thorough")),
     ("C08.f", rule_reembedded_text, ("quick", "thorough")),
     ("C08.a", rule_client_side, ("quick", "thorough")),
